@@ -32,8 +32,8 @@ from ..gen import F32, F64, pick
 F16, BF16 = torch.float16, torch.bfloat16
 
 RULE = (
-    "exhaustive: every sequence of length <= D (D = 2 quick, 3 thorough) over 14 operations {to(f32), to(f64), float(), double(), half(), "
-    "bfloat16(), to(f64 tensor), to(f32 tensor), to(instrument declared f64), to(undeclared instrument), simulate, register_buffer, "
+    "exhaustive: every sequence of length <= D (D = 2 quick, 3 thorough) over 15 operations {to(f32), to(f64), float(), double(), half(), "
+    "bfloat16(), to(f64 tensor), to(f32 tensor), to(instrument declared f64), to(undeclared instrument), simulate, register_buffer (float and integer tensor), "
     "set_default_dtype(f64), to(int32) [must raise]} for each of 8 primaries (constructed with dtype None and f64) and 3 derivative "
     "wrappers, under the float32 global default; plus seeded random sequences of length 4-10. After every operation the real object is compared "
     "with the reference state machine. distinct = distinct (target, operation sequence); trivial = sequences without simulate/register_buffer"
@@ -53,7 +53,7 @@ REQUIRED_BRANCHES = ["op.simulate_after_cast", "op.cast_after_simulate", "op.to_
 
 PRIMS = ["brownian", "heston", "cir", "vasicek", "merton", "kou", "rbergomi", "localvol"]
 OPS = ["to_f32", "to_f64", "float", "double", "half", "bfloat16", "to_tensor64", "to_tensor32", "to_inst64", "to_inst_none", "simulate",
-       "register", "default64", "to_int"]
+       "register", "register_int", "default64", "to_int"]
 
 
 def build(kind, dtype):
@@ -135,6 +135,9 @@ def apply(op, target, model, prim):
         t_ = torch.ones(2, 3, dtype=F32)
         prim.register_buffer("aux", t_)
         model.register("aux", F32)
+    elif op == "register_int":
+        prim.register_buffer("aux", torch.arange(6).reshape(2, 3))  # an integer tensor: cast to the declared dtype like any other
+        model.register("aux", torch.int64)
     elif op == "default64":
         torch.set_default_dtype(F64)
         model.g = F64
@@ -195,6 +198,7 @@ def run_sequence(ctx, kind, ctor_dtype, wrapper, seq):
         target = deriv
         label = f"{wrapper}({label})"
     done = []
+    persist = {}
     simulated = cast_seen = False
     try:
         for op in seq:
@@ -232,7 +236,7 @@ def run_sequence(ctx, kind, ctor_dtype, wrapper, seq):
                 if cast_seen:
                     ctx.branch("op.simulate_after_cast")
                 simulated = True
-            elif op in ("register",):
+            elif op in ("register", "register_int"):
                 ctx.branch("op.register_buffer")
             elif op.startswith("default"):
                 ctx.branch("op.set_default")
@@ -245,28 +249,33 @@ def run_sequence(ctx, kind, ctor_dtype, wrapper, seq):
                     ctx.branch("op.cast_after_simulate")
             if not agree(ctx, mon, prim, model, list(done), label, deriv):
                 return
-            ctx.ok(mon, sig=(label,) + tuple(done), trivial=not (simulated or "register" in done))
-        if simulated and "register" not in done:
-            derived(ctx, kind, prim, model, deriv, list(done), label)
+            ctx.ok(mon, sig=(label,) + tuple(done), trivial=not (simulated or "register" in done or "register_int" in done))
+            # consumers are evaluated after *every* operation with persistent objects (derivative, listed hedge, hedger), so that
+            # anything they cache across a cast / re-simulation is exposed
+            if simulated and "aux" not in model.B:
+                if not derived(ctx, kind, prim, model, deriv, list(done), label, persist):
+                    return
     finally:
         torch.set_default_dtype(F32)
 
 
-def derived(ctx, kind, prim, model, deriv, seq, label):
-    """Quantities computed from the final state carry its dtype (float32/float64 only)."""
+def derived(ctx, kind, prim, model, deriv, seq, label, persist):
+    """Quantities computed from the current state carry its dtype (float32/float64 only). Returns False after a violation."""
     x = model.B.get("spot")
     if x not in (F32, F64) or any(v != x for v in model.B.values()):
-        return
+        return True
     if kind in ("cir", "vasicek"):
-        return  # interest-rate instruments: no volatility/variance to feed the hedging features
+        return True  # interest-rate instruments: no volatility/variance to feed the hedging features
     mon = "derived.dtype"
-    d = deriv if (deriv is not None and hasattr(deriv, "strike") and hasattr(deriv, "moneyness")) else EuropeanOption(prim, maturity=2 * prim.dt)
-    if d is not deriv:
-        if prim.spot.shape[1] != 3:
-            return
-    listed = EuropeanOption(prim, maturity=d.maturity, strike=1.1)
-    listed.list(P.bs_pricer, cost=1e-3)
-    hedger = Hedger(MultiLayerPerceptron(in_features=3, out_features=2, n_layers=1, n_units=4), ["log_moneyness", "time_to_maturity", "volatility"]).to(x)
+    if "d" not in persist:
+        persist["d"] = deriv if (deriv is not None and hasattr(deriv, "strike") and hasattr(deriv, "moneyness")) else EuropeanOption(prim, maturity=2 * prim.dt)
+        persist["listed"] = EuropeanOption(prim, maturity=persist["d"].maturity, strike=1.1)
+        persist["listed"].list(P.bs_pricer, cost=1e-3)
+        persist["hedger"] = Hedger(MultiLayerPerceptron(in_features=3, out_features=2, n_layers=1, n_units=4), ["log_moneyness", "time_to_maturity", "volatility"])
+    d, listed, hedger = persist["d"], persist["listed"], persist["hedger"]
+    if prim.spot.shape[1] != 3:
+        return True
+    hedger.to(x)
     got = {}
     with torch.no_grad():
         got["payoff"] = d.payoff()
@@ -285,11 +294,11 @@ def derived(ctx, kind, prim, model, deriv, seq, label):
         if v.dtype != x:
             ctx.violation(mon, "derived_dtype." + name, f"{label} after {seq}: {name} has dtype {v.dtype} while every buffer is {x}", sig=(label, name, str(x)),
                           sequence=seq, quantity=name)
-            return
+            return False
         ctx.ok(mon, sig=(label.split("[")[0], name, str(x)))
     # price / compute_loss re-simulate: they must come back in the declared dtype (or the default when none is declared)
     want = model.d if model.d is not None else model.g
-    if want in (F32, F64):
+    if want in (F32, F64) and seq and seq[-1] == "simulate" and len(seq) >= 2:
         h2 = Hedger(MultiLayerPerceptron(in_features=3, out_features=1, n_layers=1, n_units=4), ["log_moneyness", "time_to_maturity", "volatility"]).to(want)
         d2 = EuropeanOption(prim, maturity=2 * prim.dt)
         with torch.no_grad():
@@ -300,8 +309,11 @@ def derived(ctx, kind, prim, model, deriv, seq, label):
             if v.dtype != want:
                 ctx.violation(mon, "derived_dtype." + name, f"{label} after {seq}: {name} has dtype {v.dtype}, expected {want}", sig=(label, name, str(want)),
                               sequence=seq, quantity=name)
-                return
+                return False
             ctx.ok(mon, sig=(label.split("[")[0], name, str(want)))
+        # price()/compute_loss() re-simulated the underlier (legitimately): bring the reference model up to date
+        model.simulate()
+    return True
 
 
 TARGETS = [(k_, dt_, None) for k_ in PRIMS for dt_ in (None, F64)] + [("brownian", None, "european"), ("heston", F64, "lookback"), ("merton", None, "varswap")]
@@ -317,10 +329,10 @@ def drv_exhaustive(ctx, k, rng):
     for depth in range(1, D + 1):
         for tail in itertools.product(OPS, repeat=depth - 1):
             seq = (first,) + tail
-            if wrapper is not None and "register" in seq:
+            if wrapper is not None and ({"register", "register_int"} & set(seq)):
                 continue
             # a sequence needs a simulate or register to say anything beyond the declared dtype; keep the cast-only ones at depth <= 2
-            if depth == 3 and not ({"simulate", "register"} & set(seq)):
+            if depth == 3 and not ({"simulate", "register", "register_int"} & set(seq)):
                 continue
             run_sequence(ctx, kind, ctor_dtype, wrapper, seq)
             n += 1
@@ -337,7 +349,7 @@ def drv_random(ctx, k, rng):
     pool = OPS + ["to_cpu", "default32", "simulate", "simulate"]
     seq = tuple(pick(rng, pool) for _ in range(L))
     if wrapper is not None:
-        seq = tuple(o for o in seq if o != "register")
+        seq = tuple(o for o in seq if o not in ("register", "register_int"))
     run_sequence(ctx, kind, ctor_dtype, wrapper, seq)
     if k < 5:
         ctx.sample({"driver": "random", "target": [kind, str(ctor_dtype), wrapper], "sequence": list(seq)})
